@@ -42,6 +42,9 @@ class _Poison:
         return f"<poison {self.exc!r}>"
 
 
+_INFEASIBLE = _Poison(RuntimeError("choice excluded by the path condition"))
+
+
 def _key_eq(idxs, key):
     cs = [i.var == k for i, k in zip(idxs, key)]
     return z3.And(*cs) if len(cs) != 1 else cs[0]
@@ -258,6 +261,14 @@ def apply(f, *args):
         c = cond_of(idxs, keys, total)
         if engine().decide(c):
             raise table[keys[0]].exc
+    # `x is None` cannot be overloaded: a result that is None for some choices and a value for others
+    # is split right here (one more decision) so that a CV never stands for None
+    nones = [k for k, v in table.items() if v is None]
+    if nones and any(v is not None and not isinstance(v, _Poison) for v in table.values()):
+        if engine().decide(cond_of(idxs, nones, total)):
+            return None
+        for k in nones:
+            table[k] = _INFEASIBLE
     vals = [v for v in table.values() if not isinstance(v, _Poison)]
     if not vals:
         raise sym.PathAbort()
